@@ -53,7 +53,7 @@ WantRange(r, L) ==
                             ELSE IF r.a + r.b > L THEN <<FALSE, 0, 0>> ELSE <<TRUE, r.a, r.b>>
     [] r.mode = "bounds" -> IF r.a > r.b \/ r.a >= L THEN <<FALSE, 0, 0>>                            \* first..last inclusive, last clipped
                             ELSE <<TRUE, r.a, Min(r.b, L - 1) - r.a + 1>>
-    [] r.mode = "from"   -> IF r.a >= L THEN <<FALSE, 0, 0>> ELSE <<TRUE, r.a, L - r.a>>
+    [] r.mode = "from"   -> IF r.a # 0 /\ r.a >= L THEN <<FALSE, 0, 0>> ELSE <<TRUE, r.a, L - r.a>>   \* "from 0" = whole payload, also when empty
     [] r.mode = "suffix" -> IF r.a = 0 THEN <<FALSE, 0, 0>> ELSE <<TRUE, L - Min(r.a, L), Min(r.a, L)>>  \* last a bytes, clipped
 RefRead(r, L) == LET w == WantRange(r, L) IN
                  IF w[1] THEN [st |-> "ok", off |-> w[2], n |-> w[3]] ELSE [st |-> "oor", off |-> 0, n |-> 0]
@@ -72,7 +72,7 @@ Resolve(r, L) ==
   IN CASE r.mode = "none"   -> Final(0, L)
        [] r.mode = "offlen" -> IF r.b = 0 THEN (IF r.a # 0 THEN <<FALSE, 0, 0>> ELSE Final(0, L)) ELSE Final(r.a, r.b)
        [] r.mode = "bounds" -> IF r.a > r.b \/ r.a >= L THEN <<FALSE, 0, 0>> ELSE Final(r.a, Min(r.b, L - 1) - r.a + 1)
-       [] r.mode = "from"   -> IF r.a >= L THEN <<FALSE, 0, 0>> ELSE Final(r.a, L - r.a)
+       [] r.mode = "from"   -> IF r.a # 0 /\ r.a >= L THEN <<FALSE, 0, 0>> ELSE Final(r.a, L - r.a)
        [] r.mode = "suffix" -> IF r.a = 0 THEN <<FALSE, 0, 0>> ELSE Final(L - Min(r.a, L), Min(r.a, L))
 
 \* children of a size-split object: sizes[i], absolute start of child i
